@@ -17,14 +17,14 @@ from harness import compcheck as cc
 
 IMPORTS = ["UPV.Core.Expr", "UPV.Core.Eval", "UPV.Core.Interp", "UPV.Planning.Problem", "UPV.Planning.Sem",
            "UPV.Compilers.LayerA_Defs", "UPV.Compilers.LayerA_Quant", "UPV.Compilers.LayerA_Inv",
-           "UPV.Compilers.LayerA_Variants", "UPV.Corr.Corr_LayerA"]
+           "UPV.Compilers.LayerA_Variants", "UPV.Compilers.LayerA_Ground", "UPV.Corr.Corr_LayerA"]
 
 KIND = {"quantifiers-remover": 0, "state-invariants-remover": 1, "bounded-types-remover": 2,
-        "conditional-effects-remover": 3, "disjunctive-conditions-remover": 4}
+        "conditional-effects-remover": 3, "disjunctive-conditions-remover": 4, "grounder": 5}
 
 PROVED = ["quantifiers-remover", "state-invariants-remover", "bounded-types-remover", "conditional-effects-remover",
-          "disjunctive-conditions-remover (problems without auxiliary goal action)"]
-VALIDATED_ONLY = ["grounder", "negative-conditions-remover", "usertype-fluents-remover", "trajectory-constraints-remover",
+          "disjunctive-conditions-remover (problems without auxiliary goal action)", "grounder"]
+VALIDATED_ONLY = ["negative-conditions-remover", "usertype-fluents-remover", "trajectory-constraints-remover",
                   "undefined-initial-numeric-remover", "pipelines", "disjunctive-conditions-remover with a fake goal action"]
 
 
@@ -125,6 +125,39 @@ def dnf_tables(c, names):
             glist(pd), glist([ser_expr(x, names) for x in goals]))
 
 
+def ground_tables(c, names):
+    """kind 5: the parameter tuples GrounderHelper enumerates (static-fluent pruning included), the real trace-back map,
+    the static fluents' initial values and the object-less types the grounder's Simplifier(env, problem) knows"""
+    from unified_planning.engines.compilers.grounder import GrounderHelper
+    from harness.ser import ser_value
+    from harness.simexplore import arg_value
+    p = c.problem
+    em = p.environment.expression_manager
+    gh = GrounderHelper(p)
+    tup = []
+    for a in p.actions:
+        ts = [glist([ser_value(arg_value(x), names) for x in t]) for t in gh.get_possible_parameters(a)]
+        tup.append(gpair(gn(names.act(a)), glist(ts)))
+    mb = c.result.map_back_action_instance
+    m = getattr(mb, "keywords", {}).get("map")
+    if not isinstance(m, dict):
+        raise Outside("no trace-back map")
+    back = []
+    for new, (old, params) in m.items():
+        back.append(gpair(gn(names.act(new)), gpair(gn(names.act(old)), glist([ser_value(arg_value(x), names) for x in params]))))
+    stat = []
+    static = p.get_static_fluents()
+    sp = SerProblem(p)
+    for f, args in sp.gfluents:
+        if f in static:
+            v = p.initial_value(em.FluentExp(f, tuple(em.ObjectExp(o) for o in args)))
+            if v is not None:
+                stat.append("(%s, %s, %s)" % (gn(names.fl(f)), glist([ser_expr(em.ObjectExp(o), names) for o in args]),
+                                               ser_expr(v, names)))
+    empty = [gn(names.ty(t)) for t in p.user_types if len(list(p.objects(t))) == 0]
+    return glist(tup), glist(back), glist(stat), glist(empty)
+
+
 def render_case(c, k):
     """Gallina definitions + the la_case term for one compcheck.Case; raises Outside"""
     in_fragment(c.problem)
@@ -135,8 +168,14 @@ def render_case(c, k):
     # (whose model keeps it); the other compilers leave non-Always constraints alone
     orig = ser_side(c.problem, names, false_invs=(kind == 0))
     comp = ser_side(c.result.problem, names, false_invs=(kind == 0))
-    back = back_table(c, names)
+    back = back_table(c, names) if kind != 5 else "[]"
     extra = ("[]", "[]", "[]")
+    gextra = ("[]", "[]", "[]", "[]")
+    if kind == 5:
+        if any(not (pp.type.is_user_type() or pp.type.is_bool_type() or pp.type.is_int_type())
+               for a in c.problem.actions for pp in a.parameters):
+            raise Outside("parameter type")
+        gextra = ground_tables(c, names)
     if kind == 4:
         t = dnf_tables(c, names)
         if t is None:
@@ -165,8 +204,10 @@ def render_case(c, k):
     tab = lambda d: glist([gpair(gn(a), gn(b)) for a, b in sorted(d.items())])
     defs = ("Definition LO%d : problem := %s.\nDefinition LC%d : problem := %s.\n" % (k, orig, k, comp))
     term = ("{| la_kind := %s; la_orig := LO%d; la_comp := LC%d; la_back := %s; la_obj_ty := %s; la_par_ty := %s; "
-            "la_fl_ty := %s; la_anc := %s; la_tau := %s; la_cdnf := %s; la_pdnf := %s; la_goals := %s |}"
-            % (gn(kind), k, k, back, tab(objs), tab(pars), tab(fls), anc, tau, extra[0], extra[1], extra[2]))
+            "la_fl_ty := %s; la_anc := %s; la_tau := %s; la_cdnf := %s; la_pdnf := %s; la_goals := %s; "
+            "la_tuples := %s; la_gback := %s; la_stat := %s; la_empty := %s |}"
+            % (gn(kind), k, k, back, tab(objs), tab(pars), tab(fls), anc, tau, extra[0], extra[1], extra[2],
+               gextra[0], gextra[1], gextra[2], gextra[3]))
     return defs, term
 
 
